@@ -4,6 +4,7 @@ import (
 	"errors"
 	"fmt"
 	"regexp"
+	"sort"
 	"strings"
 	"testing"
 
@@ -124,20 +125,22 @@ func (n *mnode) flatten(path []string, out *[]flatLeaf) {
 
 var voidKeyRe = regexp.MustCompile(`\bv[0-9a-z]+\b`)
 
+// sliceShape renders ToSlice as a sorted multiset (no order is promised).
 func sliceShape(c godi.Collection) string {
-	var sb strings.Builder
+	var parts []string
 	for _, d := range c.ToSlice() {
 		if d == nil {
-			sb.WriteString("<nil>;")
+			parts = append(parts, "<nil>")
 			continue
 		}
 		key := fmt.Sprint(d.Key)
 		if d.VoidReturn {
 			key = "void"
 		}
-		fmt.Fprintf(&sb, "%v|%s|%s|%v;", d.Type, key, d.Group, d.Lifetime)
+		parts = append(parts, fmt.Sprintf("%v|%s|%s|%v", d.Type, key, d.Group, d.Lifetime))
 	}
-	return sb.String()
+	sort.Strings(parts)
+	return strings.Join(parts, ";")
 }
 
 func TestC20Modules(t *testing.T) {
